@@ -38,7 +38,12 @@ PROBLEMS = [
     ("y(i,k) = A(i,j) * B(j,k)", "dd", {"A": ("ij", "ds"), "B": ("jk", "ds")}),
     ("z(i) = x(i) - w(i)", "s", {"x": ("i", "s"), "w": ("i", "s")}),
     ("y(i,j) = A(i,j) * 2", "ss", {"A": ("ij", "ss")}),
+    # one tensor mentioned twice (per-assignment numbering of tensor occurrences must not be shared between threads)
+    ("y(i) = b(i) * b(i)", "s", {"b": ("i", "s")}),
+    ("y(i) = b(i) + b(i) * b(i)", "s", {"b": ("i", "s")}),
+    ("y(i,k) = A(i,j) * A(j,k)", "dd", {"A": ("ij", "ds")}),
 ]
+SQUARE = {12}  # problems whose operand is used with two index lists: all sizes equal
 # the same cached kernel is called with differently sized inputs (per-call state must not live on the shared object)
 SIZES = [{"i": 2, "j": 3, "k": 2}, {"i": 4, "j": 3, "k": 2}, {"i": 2, "j": 5, "k": 3}, {"i": 3, "j": 3, "k": 3}]
 
@@ -47,7 +52,9 @@ OPERATORS = [("*", "r", "ds"), ("+", "l", "ss"), ("-", "l", "d1s0"), ("*", "l", 
 N_PROBLEMS = len(PROBLEMS) + len(OPERATORS)
 
 
-def make_call(pidx, variant, backend):
+def make_call(pidx, variant, backend, fault=0):
+    """fault=1: one dimension of one operand is enlarged so that two participants of an index disagree - the call
+    must be refused (as it is when made alone), whatever the other threads are doing."""
     import itertools
 
     pidx = pidx % N_PROBLEMS
@@ -63,6 +70,8 @@ def make_call(pidx, variant, backend):
                 "problem": pidx, "variant": variant, "assignment": f"operator {op} scalar on the {side}", "out_fmt": ""}
     text, out_fmt, ins = PROBLEMS[pidx % len(PROBLEMS)]
     sizes = SIZES[variant % len(SIZES)]
+    if pidx in SQUARE:
+        sizes = {i: 2 + variant % 3 for i in "ijk"}
     inputs = {}
     for k, (name, (idx, fmt)) in enumerate(sorted(ins.items())):
         dims = tuple(sizes[i] for i in idx)
@@ -74,7 +83,19 @@ def make_call(pidx, variant, backend):
         modes, ordering = C.fmt_parts(fmt)
         levels, vals = C.levels_from_dok(dok, dims, modes, ordering)
         inputs[name] = {"dims": list(dims), "fmt": fmt, "stored": {"levels": levels, "vals": vals}}
-    return {"assignment": text, "out_fmt": out_fmt, "inputs": inputs, "backend": backend, "problem": pidx % len(PROBLEMS),
+    inconsistent = False
+    if fault and len(ins) >= 2:
+        names = sorted(ins)
+        shared = [(n, p) for n in names[1:] for p, i in enumerate(ins[n][0]) if any(i in ins[m][0] for m in names if m != n)]
+        if shared:
+            n, p = shared[variant % len(shared)]
+            dims = list(inputs[n]["dims"])
+            dims[p] += 1
+            modes, ordering = C.fmt_parts(ins[n][1])
+            levels, vals = C.levels_from_dok({}, tuple(dims), modes, ordering)
+            inputs[n] = {"dims": dims, "fmt": ins[n][1], "stored": {"levels": levels, "vals": vals}}
+            inconsistent = True
+    return {"inconsistent": inconsistent, "assignment": text, "out_fmt": out_fmt, "inputs": inputs, "backend": backend, "problem": pidx % len(PROBLEMS),
             "variant": variant, "entry": "method" if (pidx + variant) % 3 == 0 else "evaluate"}
 
 
@@ -87,8 +108,8 @@ def controlled_cases(draw, tier):
         same = draw(st.integers(0, 2)) != 0
         p = base if same else draw(st.integers(0, N_PROBLEMS - 1))
         backend = "cffi" if draw(st.integers(0, 11)) == 0 else "llvm"
-        calls.append([p, draw(st.integers(0, 3)), backend])
-    kind = draw(st.sampled_from(["random", "random", "round_robin", "round_robin", "bursts"]))
+        calls.append([p, draw(st.integers(0, 3)), backend, int(draw(st.integers(0, 5)) == 0)])
+    kind = draw(st.sampled_from(["random", "random", "round_robin", "round_robin", "bursts", "offset", "offset"]))
     if kind == "random":
         choices = draw(st.lists(st.integers(0, 3), min_size=50, max_size=400))
     elif kind == "round_robin":
@@ -96,6 +117,12 @@ def controlled_cases(draw, tier):
         # shared object); an optional offset de-synchronises the threads by a few lines
         choices = [0] * draw(st.integers(0, 12)) + list(range(n)) * 40
         choices = choices[: 40 * n]
+    elif kind == "offset":
+        # one thread runs alone for k traced lines (anywhere in the front end or the back end), then the others get
+        # short bursts: a thread is preempted in the middle of a pipeline stage while another one starts that stage
+        k = draw(st.integers(0, 700))
+        b = draw(st.integers(1, 6))
+        choices = [0] * k + [t for _ in range(60) for t in range(n - 1, -1, -1) for _ in range(b)]
     else:
         b = draw(st.integers(2, 9))
         choices = [t for t in range(n) for _ in range(b)]
@@ -110,7 +137,7 @@ def stress_cases(draw, tier):
     for _ in range(n):
         p = draw(st.sampled_from(hot)) if draw(st.integers(0, 3)) else draw(st.integers(0, N_PROBLEMS - 1))
         backend = "cffi" if draw(st.integers(0, 24)) == 0 else "llvm"
-        calls.append([p, draw(st.integers(0, 3)), backend])
+        calls.append([p, draw(st.integers(0, 3)), backend, int(draw(st.integers(0, 7)) == 0)])
     return {"mode": "stress", "calls": calls, "rounds": 3 if tier == "quick" else 6}
 
 
@@ -120,7 +147,18 @@ def compare(case, seq, conc, tag):
         call = case["calls"][k]
         d = f"{tag}: call {k} = problem {call[0]} ({make_call(*call)['assignment']}) variant {call[1]} {call[2]}"
         if "raised" in s:
-            raise bridge.HarnessError(f"sequential reference call failed: {d}: {s['raised']}")
+            if not make_call(*call).get("inconsistent"):
+                raise bridge.HarnessError(f"sequential reference call failed: {d}: {s['raised']}")
+            # an inconsistent call is refused when made alone; it must be refused here too
+            if c is None:
+                fails.append(fail("call-did-not-finish", d))
+            elif "raised" not in c:
+                fails.append(fail("inconsistent-call-accepted-under-concurrency", f"{d}: alone it raises {s['raised']}, here it returned {c['raw']}"))
+            elif c["raised"].split(":")[0] != s["raised"].split(":")[0]:
+                fails.append(fail(f"concurrent-call-raises:{c['raised'].split(':')[0]}", f"{d}: alone it raises {s['raised']}, here {c['raised']}"))
+            continue
+        if make_call(*call).get("inconsistent"):
+            raise bridge.HarnessError(f"an inconsistent call was accepted sequentially: {d}")
         if c is None:
             fails.append(fail("call-did-not-finish", d))
         elif "raised" in c:
@@ -141,6 +179,10 @@ def check(case, worker):
         labels.add("cache_warm" if case.get("warm") else "cache_cold")
     if any(c[2] == "cffi" for c in case["calls"]):
         labels.add("cffi_backend_involved")
+    if any(w.get("inconsistent") for w in workload):
+        labels.add("inconsistent_call_in_workload")
+    if any(c[0] % N_PROBLEMS in (10, 11, 12) for c in case["calls"]):
+        labels.add("tensor_mentioned_twice")
     extra = {}
     if case["mode"] == "controlled":
         rep = worker.call({"op": "controlled", "workload": workload, "choices": case["choices"],
@@ -155,7 +197,8 @@ def check(case, worker):
     fails = []
     if case["mode"] == "controlled":
         info = rep["info"]
-        extra = {"yield_points": info["yield_points"], "context_switches": info["switches"]}
+        extra = {"yield_points": info["yield_points"], "context_switches": info["switches"],
+                 "token_handed_on_from_blocked_thread": info.get("token_handed_on", 0)}
         if info["hung"]:
             fails.append(fail("threads-hung", f"controlled workload {case['calls']}"))
             worker.close()
